@@ -302,8 +302,11 @@ theorem decodeTopU_err {env : Env} {enc : List (Bytes × BVal)} {r : Raise}
   · simp at h; subst h; rfl
   · simp at h
 
-/-- the specification C07 owes for `validate()` without a content path (its statement
-    `C07_validate_no_internal_statement` at `fs = noPath`; not proved there yet) -/
+/-- what C08 needs from C07 about `validate()` without a content path.  It is C07's theorem
+    `C07_validate_only_metainfo_error` at `fs = noPath`; `Properties/C08.lean` imports
+    `Torf.Properties.C07` and proves it (`C08_validate_documented`), so the lemmas below that take
+    it as an argument are applied unconditionally there.  (Kept as a `Prop` argument here so that
+    this lemma file does not depend on C07's proof files.) -/
 def ValidateDocumented : Prop :=
   ∀ (urlOk : Export.Bytes → Bool) (md : Items) (e : Export.ErrKind),
     Validate.filesNotMapping md = true →
@@ -464,13 +467,12 @@ theorem setXl_err {o : MagnetOracle} {v : String} {e : Err} (h : setXl o v = .er
 
 theorem mkUrl_err {o : MagnetOracle} {v : String} {e : Err} (h : mkUrl o v = .error e) : e = .url := by
   unfold mkUrl at h
-  split at h <;> simp at h; exact h.symm
-
-theorem mkUrl2_err {o : MagnetOracle} {v : String} {e : Err} (h : mkUrl2 o v = .error e) : e = .url := by
-  unfold mkUrl2 at h
   split at h
   · split at h <;> simp at h; exact h.symm
   · simp at h; exact h.symm
+
+theorem mkUrl2_err {o : MagnetOracle} {v : String} {e : Err} (h : mkUrl2 o v = .error e) : e = .url :=
+  mkUrl_err h
 
 theorem mkUrls_err {o : MagnetOracle} : ∀ {l : List String} {e : Err}, mkUrls o l = .error e → e = .url := by
   intro l
